@@ -19,7 +19,7 @@ META = dict(
         quick="every graph on <=3 nodes with all relabelings (solver-chosen bijection onto an id pool x solver-chosen "
               "insertion order), 4-node graphs with <=4 bonds under all bijections and reversed insertion order, C4 and "
               "K4-e with fixed labels; element in {C,N}, hcount in {0,1}, order in {1,2}; back-ends generic, wl, morgan, "
-              "nauty; rule-like graphs with pair-valued bond orders (3-chain, triangle, 4-ring; orders in {1,2}x{1,2}, all-carbon in the quick tier); the two-fold symmetric all-carbon dimer of the triangle (bicyclopropyl skeleton, 6 atoms, mirrored symbolic bond orders) under every numbering [thorough: the dimers of the other rooted 3-atom graphs and one 8-atom dimer with single bonds]; both copies of the module; soundness/completeness on all pairs of equal-size graphs <=3 nodes Additionally a few two-/three-atom shards with charges in {-2,-1}: different labels whose hash() values coincide in CPython.",
+              "nauty; rule-like graphs with pair-valued bond orders (3-chain, triangle, 4-ring; orders in {1,2}x{1,2}, all-carbon in the quick tier); the two-fold symmetric all-carbon dimer of the triangle (bicyclopropyl skeleton, 6 atoms, mirrored symbolic bond orders) under every numbering [thorough: the dimers of the other rooted 3-atom graphs and one 8-atom dimer with single bonds]; both copies of the module; soundness/completeness on all pairs of equal-size graphs <=3 nodes; additionally a few two-/three-atom shards with charges in {-2,-1}: different labels whose hash() values coincide in CPython.",
         thorough="4-node graphs with all insertion orders, 5-node graphs (<=5 bonds) and C5, C6, K2,3 under solver-chosen "
                  "bijections; pairs up to 4 nodes",
     ),
